@@ -158,11 +158,11 @@ def shard_random(spec, R):
         n = int(rng.choice([3, 4, 5, 8, 10, 20, 36, 72, 200]))
         tie = rng.random()
         if dtype == "int16":
-            hi = int(rng.choice([3, 10, 100, 5000]))
+            hi = int(rng.choice([3, 10, 100, 5000, 16000]))  # 16000: differences beyond the int16 range
             x = rng.integers(-hi, hi + 1, n)
             if tie < 0.3:
                 x = x + (np.arange(n) * rng.integers(-hi // 3 - 1, hi // 3 + 2))
-            x = np.clip(x, -10000, 10000).astype(np.int16)
+            x = np.clip(x, -10000 if hi < 16000 else -32000, 10000 if hi < 16000 else 32000).astype(np.int16)
         else:
             x = rng.normal(0, 1, n) * float(10.0 ** int(rng.integers(-3, 4)))
             if tie < 0.5:
